@@ -81,6 +81,7 @@ def verify_function(table, reg, qual, cls, props, timeout_ms=None):
     eng = Engine(table, reg, prover, self_class=cls, unit=unit, props=props)
     eng.func = f
     eng.cur_class = f.cls
+    eng.lenient_types = bool(c and c.lenient_types)
     if f.has_docstring():
         eng.dropped["docstring"] += 1
     try:
@@ -114,6 +115,8 @@ def verify_function(table, reg, qual, cls, props, timeout_ms=None):
         for cname, flds in reg.fields.items():
             for fn, (ty, ghost) in flds.items():
                 eng.heap_arr(st, "%s.%s" % (cname, fn), ty)
+        for gname, gfn in reg.global_invs:
+            st.assume(gfn(eng, st))
         for r in c.requires:
             st.assume(eng.spec_eval(r, st, old=st))
         # vacuity guard: the precondition is satisfiable
@@ -282,6 +285,8 @@ def verify_lemma(table, reg, name, timeout_ms=None):
         for cname, flds in reg.fields.items():
             for f2, (ty, ghost) in flds.items():
                 eng.heap_arr(st, "%s.%s" % (cname, f2), ty)
+        for gname, gfn in reg.global_invs:
+            st.assume(gfn(eng, st))
         eng.old_state = st.fork()
 
         class _F:
